@@ -1,9 +1,155 @@
 import CotengraVerif.Driver.Util
+import CotengraVerif.Model.Hyper
+import CotengraVerif.Model.HyperTrial
 
 namespace Cotengra.Driver.C08
-open Lean Cotengra Cotengra.Driver
+open Lean Cotengra Cotengra.Driver Cotengra.Hyper
 
-/-- ops of property C08 (name them "c08.<op>") -/
-def handlers : List (String × Handler) := []
+/-- scores: JSON `null` = inf -/
+def scoreOf (j : Json) : Except String Score :=
+  match j with
+  | .null => pure none
+  | _ => do pure (some (← natOf j))
+
+def jScore : Score → Json
+  | none => Json.null
+  | some a => jNat a
+
+def jOptNat : Option Nat → Json
+  | none => Json.null
+  | some a => jNat a
+
+def optNatOf (j : Json) : Except String (Option Nat) :=
+  match j with
+  | .null => pure none
+  | _ => do pure (some (← natOf j))
+
+def trialOf (j : Json) : Except String Trial := do
+  pure { score := ← scoreOf (fieldD j "score" Json.null),
+         flops := ← scoreOf (fieldD j "flops" Json.null),
+         write := ← scoreOf (fieldD j "write" Json.null),
+         size := ← scoreOf (fieldD j "size" Json.null),
+         tree := ← optNatOf (fieldD j "tree" Json.null) }
+
+def jTrial (t : Trial) : Json :=
+  jObj [("score", jScore t.score), ("flops", jScore t.flops), ("write", jScore t.write),
+        ("size", jScore t.size), ("tree", jOptNat t.tree)]
+
+def stopOf (j : Json) : Except String StopRule := do
+  let kind ← (← field j "kind").getStr?
+  match kind with
+  | "never" => pure .never
+  | "equil" => pure (.equil (← natOf (← field j "amount")))
+  | "clock" => do
+    let bits ← (← arrOf (← field j "bits")).mapM fun b => b.getBool?
+    pure (.clock bits)
+  | _ => throw s!"unknown stop rule {kind}"
+
+def jState (st : HState) : Json :=
+  jObj [("methods", jNats st.methodChoices), ("params", jNats st.paramChoices),
+        ("scores", jArr (st.scores.map jScore)), ("flops", jArr (st.costsFlops.map jScore)),
+        ("write", jArr (st.costsWrite.map jScore)), ("size", jArr (st.costsSize.map jScore)),
+        ("best_score", jScore st.bestScore),
+        ("best", match st.best with
+          | none => Json.null
+          | some b => jObj [("trial", jTrial b.trial), ("params", jOptNat b.params),
+                            ("method", jOptNat b.method)]),
+        ("trials_since_best", jNat st.trialsSinceBest),
+        ("reports", jArr (st.optlibReports.map fun (p, s) => jArr [jNat p, jScore s])),
+        ("submitted", jNat st.submitted),
+        ("tree", jOptNat st.tree)]
+
+/-- the oracles as tables indexed by the global submission number -/
+def envOf (settings : List Setting) (trials : List Trial) : Env :=
+  { getSetting := fun st => settings.getD st.submitted default,
+    trialFn := fun k _ => trials.getD k default }
+
+/-- op `c08.search`: run a sequence of searches on one optimizer object.
+    `settings[k]`, `trials[k]` = k-th submission overall; each search: mode, pre, max_repeats,
+    stop, choices. Returns the state after every search and the cancelled submissions. -/
+def search : Handler := fun j => do
+  let mts ← optNatOf (fieldD j "mts" Json.null)
+  let settings ← (← arrOf (← field j "settings")).mapM fun p => do
+    match ← arrOf p with
+    | [a, b] => pure ({ method := ← natOf a, params := ← natOf b } : Setting)
+    | _ => throw "setting must be [method, params]"
+  let trials ← (← arrOf (← field j "trials")).mapM trialOf
+  let env := envOf settings trials
+  let searches ← arrOf (← field j "searches")
+  let mut st := HState.init mts
+  let mut outs : List Json := []
+  for sj in searches do
+    let mode ← (← field sj "mode").getStr?
+    let maxRepeats ← natOf (← field sj "max_repeats")
+    let stop ← stopOf (← field sj "stop")
+    if mode == "serial" then
+      st := searchSerial env maxRepeats stop st
+      outs := outs ++ [jObj [("state", jState st), ("cancelled", jNats [])]]
+    else
+      let pre ← natOf (← field sj "pre")
+      let choices ← natList (← field sj "choices")
+      let ps := searchParallel env pre maxRepeats stop choices st
+      st := ps.h
+      outs := outs ++ [jObj [("state", jState st), ("cancelled", jNats ps.cancelled)]]
+  pure (jObj [("searches", jArr outs)])
+
+def wrapperOf (j : Json) : Except String Wrapper := do
+  match ← j.getStr? with
+  | "anneal" => pure .anneal
+  | "slice" => pure .slice
+  | "slice_reconf" => pure .sliceReconf
+  | "reconf" => pure .reconf
+  | s => throw s!"unknown wrapper {s}"
+
+def wrapperName : Wrapper → String
+  | .anneal => "anneal" | .slice => "slice" | .sliceReconf => "slice_reconf" | .reconf => "reconf"
+
+/-- op `c08.worker`: `ComputeScore` over a stack of wrappers on a table-driven tree.
+    `stats`: tree id ↦ [flops, write, size]; `mutate`: [wrapper, id, id' | null];
+    `opts`: {anneal, slice, slice_reconf, reconf : bool}; `ensures`; `value`: score | null |
+    "raise"; `on_error`; `raw`: id | "bad" | "error". -/
+def worker : Handler := fun j => do
+  let statsTbl ← (← arrOf (← field j "stats")).mapM fun r => do
+    match ← arrOf r with
+    | [i, f, w, s] => pure (← natOf i, ({ flops := ← natOf f, write := ← natOf w, size := ← natOf s } : CStats))
+    | _ => throw "stats row"
+  let mutTbl ← (← arrOf (← field j "mutate")).mapM fun r => do
+    match ← arrOf r with
+    | [w, i, o] => pure ((← wrapperOf w, ← natOf i), ← optNatOf o)
+    | _ => throw "mutate row"
+  let ops : TreeOps Nat :=
+    { stats := fun t => (statsTbl.lookup t).getD default,
+      mutate := fun w t => (mutTbl.lookup (w, t)).getD none }
+  let o ← field j "opts"
+  let flag := fun (k : String) => (fieldD o k (Json.bool false)).getBool?
+  let ws := setupStack (← flag "anneal") (← flag "slice") (← flag "slice_reconf") (← flag "reconf")
+  let ensures ← (← field j "ensures").getBool?
+  let value : Option Score ←
+    match ← field j "value" with
+    | .str _ => pure none
+    | v => do pure (some (← scoreOf v))
+  let postEnsure ← (fieldD j "post_ensure" (Json.bool false)).getBool?
+  let obj : Objective Nat := { ensures := ensures, value := fun _ => value }
+  let onErr ← match ← (← field j "on_error").getStr? with
+    | "raise" => pure OnErr.raise
+    | "warn" => pure OnErr.warn
+    | "ignore" => pure OnErr.ignore
+    | s => throw s!"unknown on_error {s}"
+  let raw : Raw Nat ← match ← field j "raw" with
+    | .str "bad" => pure Raw.badTrial
+    | .str _ => pure Raw.error
+    | v => do pure (Raw.ok (← natOf v))
+  let jOS : Option Score → Json := fun
+    | none => jStr "missing"
+    | some s => jScore s
+  match computeScore ops ws obj postEnsure onErr raw with
+  | none => pure (jObj [("raised", jBool true), ("stack", jArr (ws.map (jStr ∘ wrapperName)))])
+  | some r =>
+    pure (jObj [("raised", jBool false), ("stack", jArr (ws.map (jStr ∘ wrapperName))),
+                ("score", jScore r.score), ("flops", jOS r.flops), ("write", jOS r.write),
+                ("size", jOS r.size), ("tree", jOptNat r.tree),
+                ("keyerror", jBool (toTrial id r).isNone)])
+
+def handlers : List (String × Handler) := [("c08.search", search), ("c08.worker", worker)]
 
 end Cotengra.Driver.C08
